@@ -200,7 +200,8 @@ Ltac tab_rw Hh Hq :=
         | rewrite lookup_insert_if | rewrite aswap_remove_length
         | rewrite insert_length | rewrite fmap_length
         | rewrite last_lookup
-        | rewrite Hh | rewrite Hq | rewrite S_sub1
+        | match goal with Hl : length ?l = _ |- context [length ?l] => rewrite Hl end
+        | rewrite S_sub1
         | rewrite Nat.pred_succ ].
 Ltac hyp_rw Hh Hq :=
   match goal with
@@ -213,10 +214,10 @@ Ltac hyp_rw Hh Hq :=
   | Hc : context [aswap_remove _ _ !! _] |- _ => rewrite lookup_aswap_remove in Hc
   | Hc : context [<[_:=_]> _ !! _] |- _ => rewrite lookup_insert_if in Hc
   | Hc : context [last _] |- _ => rewrite last_lookup in Hc
-  | Hc : context [length ?l] |- _ =>
+  | Hl : length ?l = _, Hc : context [length ?l] |- _ =>
       lazymatch type of Hc with
       | length _ = _ => fail
-      | _ => first [ rewrite Hh in Hc | rewrite Hq in Hc ]
+      | _ => rewrite Hl in Hc
       end
   end.
 Ltac tab H Hh Hq H1 H2 :=
@@ -323,6 +324,30 @@ Proof.
   rewrite !lookup_insert_if, !insert_length.
   repeat case_decide; simplify_eq; try done; try lia.
   all: by rewrite ?Ha, ?Hb.
+Qed.
+
+(** the entries seen through the tables after a removal *)
+Lemma omap_remove {E} (m : list E) h q n1 pos head :
+  tables_inv h q (S n1) -> length m = S n1 -> h !! pos = Some head ->
+  omap (fun i => aswap_remove m head !! i) (ren n1 head <$> aswap_remove h pos)
+  = aswap_remove (omap (fun i => m !! i) h) pos.
+Proof.
+  intros H Hm Hpos. pose proof H as (Hh&Hq&H1&H2).
+  pose proof (tables_inv_remove _ _ _ _ _ H Hpos) as H'.
+  assert (forall i, i ∈ h -> is_Some (m !! i)) as Hall.
+  { intros i [p Hp]%elem_of_list_lookup. apply lookup_lt_is_Some. rewrite Hm.
+    by eapply tables_inv_h_lt. }
+  apply list_eq. intros p.
+  rewrite omap_all_Some_lookup.
+  2:{ intros i [p' Hp]%elem_of_list_lookup. apply lookup_lt_is_Some.
+      rewrite aswap_remove_length, Hm, S_sub1. by eapply tables_inv_h_lt. }
+  rewrite (lookup_aswap_remove (omap _ _)), last_lookup.
+  rewrite !omap_all_Some_lookup, omap_all_Some_length by done.
+  destruct (lookup_lt_is_Some_2 h n1) as [el Hel]; [lia|].
+  unfold ren.
+  destruct (decide (p < n1)).
+  - destruct (lookup_lt_is_Some_2 h p) as [x Hx]; [lia|]. tab H Hh Hq H1 H2.
+  - tab H Hh Hq H1 H2.
 Qed.
 
 (** ** the store *)
@@ -611,12 +636,101 @@ Proof.
   - apply omap_lookup_seq.
 Qed.
 
+(** *** removals *)
+Lemma nodup_keys_aswap_remove (m : list (I * P)) i :
+  nodup_keys keq m -> nodup_keys keq (aswap_remove m i).
+Proof.
+  intros Hnd a b ea eb. rewrite !lookup_aswap_remove, last_lookup.
+  repeat case_decide; try done; intros Ha Hb Hk;
+    pose proof (Hnd _ _ _ _ Ha Hb Hk); lia.
+Qed.
+
+Lemma swap_remove_eval s pos head n1 :
+  WF keq s -> ssize s = S n1 -> heap s !! pos = Some head ->
+  exists e, smap s !! head = Some e /\
+  swap_remove s pos =
+  Ok (Some e, set_size (set_qp (set_heap (set_map s (aswap_remove (smap s) head))
+         (ren n1 head <$> aswap_remove (heap s) pos))
+         (ren n1 pos <$> aswap_remove (qp s) head)) n1).
+Proof.
+  intros H Hn Hpos.
+  destruct (WF_heap_lt _ _ _ H Hpos) as [Hp Hhd].
+  destruct (WF_smap_is_Some s head H Hhd) as [e He]. exists e. split; [done|].
+  destruct (WF_heap_is_Some s n1 H) as [el Hel]; [lia|].
+  pose proof H as (Hm&Ht&_). rewrite Hn in Ht.
+  destruct (swap_remove_tables _ _ _ _ _ _ Ht Hpos Hel) as [E1 E2].
+  pose proof Ht as (Hh&Hq&H1&H2).
+  destruct (lookup_lt_is_Some_2 (qp s) n1) as [ql Hql]; [lia|].
+  unfold swap_remove. rewrite (vswap_remove_ok _ _ _ Hpos), Hn, sub1_ok.
+  cbn [mbind res_bind rbind].
+  assert ((if decide (pos < n1)
+           then h ← getu (aswap_remove (heap s) pos) pos; setu (qp s) h pos
+           else Ok (qp s)) =
+          Ok (S:=store) (if decide (pos < n1) then <[el:=pos]> (qp s) else qp s)) as ->.
+  { case_decide; [|done].
+    rewrite (getu_ok _ _ el).
+    2:{ rewrite lookup_aswap_remove, last_lookup. tab Ht Hh Hq H1 H2. }
+    cbn [mbind res_bind rbind]. apply setu_ok. tab Ht Hh Hq H1 H2. }
+  cbn [mbind res_bind rbind].
+  rewrite (vswap_remove_ok _ _ pos).
+  2:{ tab Ht Hh Hq H1 H2. }
+  cbn [mbind res_bind rbind]. rewrite E1.
+  destruct ((ren n1 pos <$> aswap_remove (qp s) head) !! head) as [qq|] eqn:Hqq.
+  - specialize (E2 qq). rewrite E1 in E2. specialize (E2 Hqq).
+    assert ((if decide (head < n1)
+             then q ← getu (ren n1 pos <$> aswap_remove (qp s) head) head;
+                  setu (aswap_remove (heap s) pos) q head
+             else Ok (aswap_remove (heap s) pos)) =
+            Ok (S:=store) (ren n1 head <$> aswap_remove (heap s) pos)) as ->.
+    { rewrite <-E2. case_decide; [|done].
+      rewrite (getu_ok _ _ _ Hqq). cbn [mbind res_bind rbind]. apply setu_ok.
+      unfold ren in Hqq. tab Ht Hh Hq H1 H2. }
+    cbn [mbind res_bind rbind]. rewrite (map_swap_remove_index_ok _ _ _ He). done.
+  - assert (~ head < n1) as Hge.
+    { intros Hlt. apply lookup_ge_None in Hqq.
+      rewrite fmap_length, aswap_remove_length, Hq in Hqq. lia. }
+    rewrite decide_False by done.
+    assert (aswap_remove (heap s) pos = ren n1 head <$> aswap_remove (heap s) pos) as <-.
+    { apply list_eq. intros p. unfold ren.
+      destruct (decide (p < n1)).
+      - destruct (lookup_lt_is_Some_2 (heap s) p) as [x Hx]; [lia|]. tab Ht Hh Hq H1 H2.
+      - tab Ht Hh Hq H1 H2. }
+    cbn [mbind res_bind rbind]. rewrite (map_swap_remove_index_ok _ _ _ He). done.
+Qed.
+
+Lemma WF_removed s n1 pos head :
+  WF keq s -> ssize s = S n1 -> heap s !! pos = Some head ->
+  let s' := set_size (set_qp (set_heap (set_map s (aswap_remove (smap s) head))
+         (ren n1 head <$> aswap_remove (heap s) pos))
+         (ren n1 pos <$> aswap_remove (qp s) head)) n1 in
+  WF keq s' /\ eview s' = aswap_remove (eview s) pos.
+Proof.
+  intros (Hm&Ht&Hnd) Hn Hpos s'. rewrite Hn in Ht. split.
+  - split_and!; cbn.
+    + rewrite aswap_remove_length, Hm, Hn. lia.
+    + by apply tables_inv_remove.
+    + by apply nodup_keys_aswap_remove.
+  - unfold eview. cbn. eapply omap_remove; [done| |done]. by rewrite Hm.
+Qed.
+
+Theorem swap_remove_ok : swap_remove_ok_stmt keq (P:=P).
+Proof.
+  intros s pos H Hpos.
+  destruct (WF_heap_is_Some s pos H Hpos) as [head Hhd].
+  destruct (ssize s) as [|n1] eqn:Hn; [lia|].
+  destruct (swap_remove_eval s pos head n1 H Hn Hhd) as (e&He&Hev).
+  destruct (WF_removed s n1 pos head H Hn Hhd) as [HWF Hview].
+  eexists e, head, _. split_and!; [exact Hev|done..| |cbn; lia|done].
+  by apply map_swap_remove_index_ok.
+Qed.
+
 End StoreProofs.
 Print Assumptions eview_lookup.
 Print Assumptions eview_length.
 Print Assumptions eview_perm.
 Print Assumptions prio_at_ok.
 Print Assumptions swap_ok.
+Print Assumptions swap_remove_ok.
 Print Assumptions hole_move_ok.
 Print Assumptions get_index_of_spec.
 Print Assumptions set_entry_ok.
